@@ -52,6 +52,14 @@ type stream func(r *rand.Rand, n int, g *genOut)
 
 var streams = map[string]stream{}
 
+// runners: case kind -> implementation runner (fields f[0]=kind, f[1]=id, f[2..]=payload)
+var runners = map[string]func(f []string) string{
+	"lex":   func(f []string) string { return runLex(unhx(f[2])) },
+	"tsh":   runTsh,
+	"parse": runParse,
+	"emit":  runEmit,
+}
+
 func main() {
 	if len(os.Args) < 2 {
 		die("usage")
@@ -106,25 +114,12 @@ func runCases(casesPath string, outPath string) {
 		for len(f) < 3 {
 			f = append(f, "")
 		}
-		switch f[0] {
-		case "lex":
-			fmt.Fprintf(out, "lex %s %s\n", f[1], runLex(unhx(f[2])))
-		case "parse":
-			for len(f) < 4 {
+		if rn, ok := runners[f[0]]; ok {
+			for len(f) < 8 {
 				f = append(f, "")
 			}
-			fmt.Fprintf(out, "parse %s %s\n", f[1], runParse(f))
-		case "emit":
-			for len(f) < 4 {
-				f = append(f, "")
-			}
-			fmt.Fprintf(out, "emit %s %s\n", f[1], runEmit(f))
-		case "tsh":
-			for len(f) < 7 {
-				f = append(f, "")
-			}
-			fmt.Fprintf(out, "tsh %s %s\n", f[1], runTsh(f))
-		default:
+			fmt.Fprintf(out, "%s %s %s\n", f[0], f[1], rn(f))
+		} else {
 			fmt.Fprintf(out, "unknown-case-kind %s\n", f[0])
 		}
 	}
